@@ -944,8 +944,13 @@ def check_lncdf(ctx, lines, recs):
     rng.shuffle(perm)
     pad = (-len(zs)) % 7
     z2 = torch.tensor([zs[i] for i in perm] + [0.3] * pad, dtype=torch.float64).reshape(-1, 7).requires_grad_(True)
-    y2 = log_normal_cdf(z2)
-    y2.sum().backward()
+    try:
+        y2 = log_normal_cdf(z2)
+        y2.sum().backward()
+    except Exception as e:
+        ctx.fail("lncdf:raised", f"log_normal_cdf(z).sum().backward() on a {list(z2.shape)} float64 tensor raised {type(e).__name__}: "
+                 f"{str(e)[:200]}", {"kind": "lncdf-raised", "shape": list(z2.shape)})
+        return
     val2 = y2.detach().reshape(-1).tolist()
     grd2 = z2.grad.reshape(-1).tolist()
     val, grd = [None] * len(zs), [None] * len(zs)
@@ -1060,10 +1065,32 @@ def compare_lean(ctx, recs, replies):
 
 # ------------------------------------------------------------------ (7) histories: repeated backward, one object under several dtypes / encodings
 
-def check_backward_histories(ctx, want_driver=True, deep=False):
+def _ask(batch, lines, handler):
+    """send `lines` to the Lean driver and hand the replies to `handler` — now, or together with the other requests of
+    this run when a `batch` list is given (one driver start-up instead of five)"""
+    if not lines:
+        return
+    if batch is None:
+        handler(C.run_driver("C13", lines))
+    else:
+        batch.append((lines, handler))
+
+
+def _flush(batch):
+    lines = [l for ls, _ in batch for l in ls]
+    if not lines:
+        return
+    replies = C.run_driver("C13", lines)
+    pos = 0
+    for ls, handler in batch:
+        handler(replies[pos:pos + len(ls)])
+        pos += len(ls)
+
+
+def check_backward_histories(ctx, want_driver=True, deep=False, batch=None):
     """ONE autograd graph through log_normal_cdf back-propagated several times (see _c13hist): every pass = g·phi/Phi."""
     from props import _c13hist as H
-    rng = ctx.rng("backward-histories" + (":deep" if deep else ""))
+    rng = ctx.rng("backward-histories" + (":deep" if deep and ctx.quick else ""))
     recs_all = []
     for spec in H.gen_backward_specs(rng, deep):
         probs, recs = H.run_backward(spec)
@@ -1080,25 +1107,26 @@ def check_backward_histories(ctx, want_driver=True, deep=False):
         srng = ctx.rng("backward-histories:lean")
         sub = [r for r in recs_all if r[1] < -1 or r[1] * r[1] < 0.04 or srng.random() < 0.3]
         sub = srng.sample(sub, min(len(sub), 120 if ctx.quick else 1200))
-        replies = C.run_driver("C13", [f"R {j} {bits(z)} {bits(lp)}" for j, z, lp, _ in sub])
-        bad = 0
-        for (j, z, lp, unit), rep in zip(sub, replies):
-            ctx.count("lean_backward_nth_comparisons")
-            mg = unbits(rep)
-            if not abs(mg - unit) <= 1e-11 * (1 + abs(unit)):
-                bad += 1
-                if bad <= 2:
-                    ctx.broke("correspondence", "generated backward (k-th pass) vs implementation",
-                              f"backward pass #{j + 1} at z={z!r}: autograd returned {unit!r} per unit upstream gradient, the generated "
-                              f"`lncdfBackwardNth {j}` gives {mg!r}")
-        ctx.count("lean_backward_nth_mismatches", bad)
+        def handle(replies):
+            bad = 0
+            for (j, z, lp, unit), rep in zip(sub, replies):
+                ctx.count("lean_backward_nth_comparisons")
+                mg = unbits(rep)
+                if not abs(mg - unit) <= 1e-11 * (1 + abs(unit)):
+                    bad += 1
+                    if bad <= 2:
+                        ctx.broke("correspondence", "generated backward (k-th pass) vs implementation",
+                                  f"backward pass #{j + 1} at z={z!r}: autograd returned {unit!r} per unit upstream gradient, the generated "
+                                  f"`lncdfBackwardNth {j}` gives {mg!r}")
+            ctx.count("lean_backward_nth_mismatches", bad)
+        _ask(batch, [f"R {j} {bits(z)} {bits(lp)}" for j, z, lp, _ in sub], handle)
 
 
-def check_object_histories(ctx, want_driver=True, deep=False):
+def check_object_histories(ctx, want_driver=True, deep=False, batch=None):
     """ONE rule / likelihood object used under several dtypes, distribution kinds, observation batches and label encodings
     in sequence (see _c13hist): every float64 call is judged and no call may change the object."""
     from props import _c13hist as H
-    rng = ctx.rng("object-histories" + (":deep" if deep else ""))
+    rng = ctx.rng("object-histories" + (":deep" if deep and ctx.quick else ""))
     pend = []
     tot = {}
     for spec in H.gen_object_specs(rng, deep):
@@ -1106,9 +1134,9 @@ def check_object_histories(ctx, want_driver=True, deep=False):
         for k_, v_ in cnt.items():
             tot[k_] = tot.get(k_, 0) + v_
         ctx.case(f"OH:{spec['object']}:{spec['built_under']}:{spec['N']}:" +
-                 ">".join(c_["op"] + ":" + c_.get("dtype", "")[-2:] + ":" + c_.get("dist", "")[:2] + ":" + c_.get("enc", "") for c_ in spec["ops"]),
+                 ">".join(c_["op"][:4] + ":" + c_.get("dtype", "")[-2:] + ":" + c_.get("dist", "")[:2] + ":" + c_.get("enc", "") for c_ in spec["ops"]),
                  sample={"object": spec["object"], "built_under": spec["built_under"],
-                         "ops": [c_["op"] + ("" if c_["op"] == "double" else "/" + c_["dtype"]) for c_ in spec["ops"]]})
+                         "ops": [c_["op"] + ("/" + c_["dtype"] if "dtype" in c_ else "") for c_ in spec["ops"]]})
         ctx.count("object_histories")
         for key, what in probs[:2]:
             ctx.fail(key, what, spec)
@@ -1122,18 +1150,23 @@ def check_object_histories(ctx, want_driver=True, deep=False):
         ctx.count("object_history_" + k_, v_)
     # exact moments: from the Lean driver (ℚ); the python recursion only when the driver is unavailable
     lines = [f"M {C.rat_str(m)} {C.rat_str(v)} {K}" for _, mreq in pend for (m, v, K, _, _) in mreq]
-    replies = C.run_driver("C13", lines) if (want_driver and lines) else None
-    pos = 0
-    for spec, mreq in pend:
-        moments = None
-        if replies is not None:
-            moments = [[C.parse_rat(t) for t in replies[pos + i].split()] for i in range(len(mreq))]
-            pos += len(mreq)
-        for key, what in H.judge_moments(spec, mreq, moments)[:1]:
-            ctx.fail(key, what, spec)
+
+    def handle(replies):
+        pos = 0
+        for spec, mreq in pend:
+            moments = None
+            if replies is not None:
+                moments = [[C.parse_rat(t) for t in replies[pos + i].split()] for i in range(len(mreq))]
+                pos += len(mreq)
+            for key, what in H.judge_moments(spec, mreq, moments)[:1]:
+                ctx.fail(key, what, spec)
+    if want_driver:
+        _ask(batch, lines, handle)
+    else:
+        handle(None)
 
 
-def check_moment_equations(ctx, want_driver=True):
+def check_moment_equations(ctx, want_driver=True, batch=None):
     """The 2N moment equations (1/sqrt(pi))·Σ w_i t_i^k = M_k(0, 1/2), k < 2N, of the tables the objects really store:
     residual bounds certified exactly in ℚ by the driver (`momentResidualBound`, theorem `moment_residual_certified`)."""
     import numpy as np
@@ -1149,61 +1182,91 @@ def check_moment_equations(ctx, want_driver=True):
                 tables.append((dtype_name, N, q.locations.double().tolist(), q.weights.double().tolist()))
         finally:
             torch.set_default_dtype(torch.float32)
-    worst = {}
-    if want_driver:
-        replies = C.run_driver("C13", [f"Q {N} " + " ".join(f"{C.rat_str(a)} {C.rat_str(b)}" for a, b in zip(t, w)) for _, N, t, w in tables])
+    def judge(res):
+        worst = {}
+        for (dtype_name, N, t, w), pairs in zip(tables, res):
+            if len(pairs) != 2 * N:
+                ctx.broke("correspondence", "driver:Q", f"N={N}: {len(pairs)} residuals for {2 * N} equations")
+                continue
+            for k, (bound, scale) in enumerate(pairs):
+                # stated numeric bound: float64 tables 1e-12, float32-stored tables (k+2)·2^-22, relative to (1/sqrt(pi))·Σ|w||t|^k
+                lim = 1e-12 if dtype_name == "float64" else (k + 2) * 2.0 ** -22
+                ratio = float(bound / scale)
+                ctx.case(f"Q:{dtype_name}:N{N}:k{k}", nontrivial=(k % 2 == 0),
+                         sample={"dtype": dtype_name, "N": N, "k": k, "certified_residual_over_scale": ratio})
+                worst[f"{dtype_name}:N={N}"] = max(worst.get(f"{dtype_name}:N={N}", 0.0), ratio)
+                if not ratio <= lim:
+                    ctx.fail("ghq:moment-equations", f"GaussHermiteQuadrature1D({N}) [{dtype_name} default dtype]: the stored table violates "
+                             f"the moment equation of degree {k}: |(1/sqrt(pi))·Σ w t^{k} − M_{k}(0,1/2)| ≤ {float(bound):.3e} is the "
+                             f"certified bound, i.e. {ratio:.2e} of the scale (limit {lim:.1e})",
+                             {"kind": "moment-equations", "N": N, "dtype": dtype_name, "k": k})
+                    break
+        ctx.notes["ghq_moment_residual_certified_over_scale"] = worst
+
+    if not want_driver:
+        judge([H.moment_residuals_mirror(t, w) for _, _, t, w in tables])
+        return
+
+    def handle(replies):
         res = []
-        for rep in replies:
+        for rep in replies[:-1]:
             tk = rep.split()
             res.append([(C.parse_rat(tk[2 * i]), C.parse_rat(tk[2 * i + 1])) for i in range(len(tk) // 2)])
-    else:
-        res = [H.moment_residuals_mirror(t, w) for _, _, t, w in tables]
-    for (dtype_name, N, t, w), pairs in zip(tables, res):
-        if len(pairs) != 2 * N:
-            ctx.broke("correspondence", "driver:Q", f"N={N}: {len(pairs)} residuals for {2 * N} equations")
-            continue
-        for k, (bound, scale) in enumerate(pairs):
-            # stated numeric bound: float64 tables 1e-12, float32-stored tables (k+2)·2^-22, relative to (1/sqrt(pi))·Σ|w||t|^k
-            lim = 1e-12 if dtype_name == "float64" else (k + 2) * 2.0 ** -22
-            ratio = float(bound / scale)
-            ctx.case(f"Q:{dtype_name}:N{N}:k{k}", nontrivial=(k % 2 == 0), sample={"dtype": dtype_name, "N": N, "k": k, "certified_residual_over_scale": ratio})
-            worst[f"{dtype_name}:N={N}"] = max(worst.get(f"{dtype_name}:N={N}", 0.0), ratio)
-            if not ratio <= lim:
-                ctx.fail("ghq:moment-equations", f"GaussHermiteQuadrature1D({N}) [{dtype_name} default dtype]: the stored table violates the "
-                         f"moment equation of degree {k}: |(1/sqrt(pi))·Σ w t^{k} − M_{k}(0,1/2)| ≤ {float(bound):.3e} is the certified bound, "
-                         f"i.e. {ratio:.2e} of the scale (limit {lim:.1e})", {"kind": "moment-equations", "N": N, "dtype": dtype_name, "k": k})
-                break
-    ctx.notes["ghq_moment_residual_certified_over_scale"] = worst
-    if want_driver:
-        rep = C.run_driver("C13", ["P"])[0]
+        judge(res)
+        rep = replies[-1]
         ctx.notes["generated_purity_facts"] = rep
         parts = [x.strip() for x in rep.split("|")]
-        if not (parts[0] == "0" and set(parts[1].split()) <= {"0"} and parts[2] == "true" and parts[3] == "true true"):
+        if not (len(parts) == 4 and parts[0] == "0" and set(parts[1].split()) <= {"0"} and parts[2] == "true" and parts[3] == "true true"):
             ctx.broke("correspondence", "generated purity facts", f"the regenerated code writes state / selects the label map by state: {rep}")
+    _ask(batch, [f"Q {N} " + " ".join(f"{C.rat_str(a)} {C.rat_str(b)}" for a, b in zip(t, w)) for _, N, t, w in tables] + ["P"], handle)
+
+
+def _stage(ctx, name, fn):
+    """one stage of the correspondence; an exception (the implementation raising on a legal input, or the harness) is
+    recorded and the remaining stages still run"""
+    import traceback
+    try:
+        fn()
+    except Exception as e:
+        tb = traceback.format_exc()
+        ctx.count("stage_errors")
+        ctx.broke("correspondence", f"stage:{name}", tb)
+        _state.setdefault("stage_errors", []).append((name, f"{type(e).__name__}: {str(e)[:200]}", "gpytorch/" in tb.replace(C.VERIF, "")))
 
 
 def correspondence(ctx, want_driver=True):
     import torch
     torch.set_num_threads(2)
+    torch.set_default_dtype(torch.float32)
     # construction histories run before anything else builds a likelihood in this process, and again at the end
     # (then every class has been constructed before under other settings)
-    check_construction_histories(ctx, want_driver=want_driver)
-    recs = poly_cases(ctx)
-    check_poly(ctx, recs, want_driver=want_driver)
-    check_settings(ctx)
-    check_likelihood_integrals(ctx)
+    S = lambda name, fn: _stage(ctx, name, fn)
+    if want_driver:
+        try:
+            C.run_driver("C13", ["P"])
+        except Exception as e:      # the regenerated model no longer compiles / the driver dies: judge by the specification alone
+            ctx.broke("correspondence", "driver", str(e)[-1500:])
+            want_driver = False
+    S("construction-histories", lambda: check_construction_histories(ctx, want_driver=want_driver))
+    S("polynomials", lambda: check_poly(ctx, poly_cases(ctx), want_driver=want_driver))
+    S("settings", lambda: check_settings(ctx))
+    S("likelihood-integrals", lambda: check_likelihood_integrals(ctx))
     lines, lrecs = [], []
-    check_bernoulli_marginal(ctx, lines, lrecs)
-    check_bernoulli_log_marginal_sweep(ctx)
-    check_call_histories(ctx)
-    check_conditionals(ctx, lines, lrecs)
-    check_lncdf(ctx, lines, lrecs)
+    S("bernoulli-marginal", lambda: check_bernoulli_marginal(ctx, lines, lrecs))
+    S("bernoulli-log-marginal", lambda: check_bernoulli_log_marginal_sweep(ctx))
+    S("call-histories", lambda: check_call_histories(ctx))
+    S("conditionals", lambda: check_conditionals(ctx, lines, lrecs))
+    S("log_normal_cdf", lambda: check_lncdf(ctx, lines, lrecs))
+    batch = [] if want_driver else None
     if want_driver and lines:
-        compare_lean(ctx, lrecs, C.run_driver("C13", lines))
-    check_moment_equations(ctx, want_driver=want_driver)
-    check_backward_histories(ctx, want_driver=want_driver)
-    check_object_histories(ctx, want_driver=want_driver)
-    check_construction_histories(ctx, want_driver=want_driver)
+        _ask(batch, lines, lambda replies: compare_lean(ctx, lrecs, replies))
+    S("moment-equations", lambda: check_moment_equations(ctx, want_driver=want_driver, batch=batch))
+    deep = not ctx.quick
+    S("backward-histories", lambda: check_backward_histories(ctx, want_driver=want_driver, deep=deep, batch=batch))
+    S("object-histories", lambda: check_object_histories(ctx, want_driver=want_driver, deep=deep, batch=batch))
+    if want_driver:
+        S("driver", lambda: _flush(batch))
+    S("construction-histories-2", lambda: check_construction_histories(ctx, want_driver=want_driver))
     _state["ran"] = True
 
 
@@ -1212,7 +1275,8 @@ def search(ctx, broken):
     against exact or 30-digit references (the exact moments then come from the same recursion in Python Fractions)."""
     if ctx.failures:
         return
-    if not _state.get("ran"):
+    if not _state.get("ran") or _state.get("stage_errors"):
+        _state["stage_errors"] = []
         correspondence(ctx, want_driver=False)
     if ctx.failures:
         return
@@ -1233,6 +1297,14 @@ def replay(ctx, payload):
         probs, state, mreq, _ = H.run_object(case, _mp_logp)
         probs = probs + H.judge_moments(case, mreq, None)
         return not any(key == payload["key"] for key, _ in probs)
+    if k == "lncdf-raised":
+        from gpytorch.functions import log_normal_cdf
+        z = torch.linspace(-3, 3, 7 * case["shape"][0], dtype=torch.float64).reshape(-1, 7).requires_grad_(True)
+        try:
+            log_normal_cdf(z).sum().backward()
+            return True
+        except Exception:
+            return False
     if k == "moment-equations":
         sub = _Ctx2()
         check_moment_equations(sub, want_driver=False)
